@@ -45,6 +45,9 @@ func loadEngineTypes(repoDir string) (map[string]*types.Package, error) {
 func checkC02(c *Ctx, r *Report) {
 	defer func() { ruleRegexInventory(c, r, "C02.f", "core/annotations", "common", "core/validators") }()
 	defer checkProcessWideState(c, r, "C02.g")
+	// a verb that validation lets through in another spelling has no registration method / no arm in some engines
+	defer checkExactMembership(c, r, "C02.d")
+	defer checkVerbTestedAsWritten(c, r, "C02.d")
 	// the router that is served is the file just generated: it replaces the previous one entirely
 	// (a stale tail behind a shorter regeneration registers routes nobody annotated, or does not compile)
 	defer checkArtifactWrites(c, r, "C02.g", "generator/routes.GenerateRoutes")
